@@ -872,4 +872,52 @@ func ruleC09Ifchanged(p *Prog, a *Anchors, r *Report) {
 	if !stored {
 		r.Bad("remember", p.Pos(f.Pos()), "the evaluated values are never remembered (ifchanged would compare against nothing or against stale data updated in place)")
 	}
+	// "differs from the previous iteration": the comparator must answer "same" for two equal values of every kind.
+	// (*Value).EqualValueTo does not: it returns false as soon as one side is the nil value and for everything ==
+	// cannot compare (read off its own source below). A tag that decides by EqualValueTo alone therefore prints on
+	// every iteration while the watched value stays nil, or stays an equal list/map.
+	partial := p.Method("Value", "EqualValueTo")
+	partialWhy := ""
+	if partial != nil {
+		for _, ret := range returnsOf(partial) {
+			if k, isC := res(ret, 0).(*ssa.Const); isC && k.Value != nil && k.Value.String() == "false" {
+				if Guarded(ret, func(c ssa.Value, pol bool) bool {
+					cc, ok := c.(*ssa.Call)
+					return ok && cc.Common().StaticCallee() != nil && p.extName(cc.Common().StaticCallee()) == "(reflect.Value).IsValid" && !pol
+				}) {
+					partialWhy = p.InstrPos(ret)
+				}
+			}
+		}
+	}
+	usesPartial, other := "", ""
+	for _, fn := range clusterOf(p, exec, 2) {
+		if fn == partial {
+			continue
+		}
+		for _, b := range fn.Blocks {
+			for _, in := range b.Instrs {
+				c, ok := in.(*ssa.Call)
+				if !ok || c.Common().StaticCallee() == nil {
+					continue
+				}
+				switch cal := c.Common().StaticCallee(); {
+				case cal == partial:
+					usesPartial = p.InstrPos(in)
+				case p.extName(cal) == "reflect.DeepEqual", cal.Name() == "IsNil" && p.InPkg(cal):
+					other = p.InstrPos(in)
+				}
+			}
+		}
+	}
+	switch {
+	case usesPartial != "" && partialWhy != "" && other == "":
+		r.Bad("compare:every-kind", usesPartial, "watched values are compared by EqualValueTo alone, which answers false whenever a side is nil (%s) and for slices/maps: {%% ifchanged x %%} prints on every iteration while x stays nil or stays an equal list", partialWhy)
+	case usesPartial != "":
+		r.OK("compare:every-kind", usesPartial, "EqualValueTo is not the only decider (also %s): nil and uncomparable values are compared too", other)
+	case other != "":
+		r.OK("compare:every-kind", other, "compared without EqualValueTo")
+	default:
+		r.Unk("compare:every-kind", p.Pos(exec.Pos()), "no comparison of the remembered with the new values found")
+	}
 }
